@@ -99,6 +99,7 @@ func SetHooks(h *Hooks) {
 	servers = map[string]*Server{}
 	regMu.Unlock()
 	atomic.StoreInt64(&Stats.Dials, 0)
+	atomic.StoreInt64(&Stats.Connected, 0)
 	atomic.StoreInt64(&Stats.Closes, 0)
 }
 
@@ -110,7 +111,7 @@ func getHooks() *Hooks {
 }
 
 // Stats counts transport events of the run.
-var Stats struct{ Dials, Closes int64 }
+var Stats struct{ Dials, Closes, Connected int64 }
 
 // ---------------------------------------------------------------- stream
 
@@ -655,6 +656,7 @@ func DialContext(ctx context.Context, target string, opts ...grpc.DialOption) (*
 		return nil, fmt.Errorf("context deadline exceeded dialing %s: %w", target, ctx.Err())
 	}
 	cctx, cancel := context.WithCancel(context.Background())
+	atomic.AddInt64(&Stats.Connected, 1)
 	return &ClientConn{target: target, ctx: cctx, cancel: cancel}, nil
 }
 
